@@ -246,6 +246,9 @@ class Intervals:
         lv = self.loop_var(op, stack)
         if lv is not None:
             return self.refine_term(op, lv, bb)
+        ev = self.enumerate_item(op, stack)
+        if ev is not None:
+            return ev
         # success payload of a Result/Option/ControlFlow-typed local:  (x as Ok|Some|Continue).0
         if len(p['p']) == 2 and p['p'][0]['k'] == 'downcast' and p['p'][0].get('v') in ('Ok', 'Some', 'Continue') and \
                 p['p'][1]['k'] == 'field' and p['p'][1]['i'] == 0:
@@ -347,6 +350,40 @@ class Intervals:
         if r_ is None:
             return None
         return (r_[0], r_[1])
+
+    def enumerate_item(self, op, stack):
+        """`for (i, v) in (S..E).enumerate()`: v ranges like the loop variable of S..E; the position i lies in [0, E-S-1], and
+        with E = S + X (X widened from a narrower type) in [0, max(X)-1] - the same relational step as relational_sub"""
+        from terms import strip_casts, casts_on
+        p = op['p']
+        if [e['k'] for e in p['p']] != ['downcast', 'field', 'field']:
+            return None
+        t = self.r.operand(op)
+        if not (isinstance(t, tuple) and t[0] == 'field' and t[2] in ('0', '1') and t[1][0] == 'next'):
+            return None
+        en = q.unwrap_into_iter(t[1][1])
+        if not (en[0] == 'call' and en[1] == 'std::iter::Iterator::enumerate' and len(en[2]) == 1):
+            return None
+        r_ = self.range_of_loopvar(('next', en[2][0]), stack)
+        if r_ is None:
+            return None
+        lo, hi, S, E = r_
+        tr = ty_range(p['ty'])
+        if t[2] == '1':
+            v = (lo, hi)
+        else:
+            v = (0, max(0, hi - lo))
+            Es, Ss = strip_casts(E), strip_casts(S)
+            if Es[0] == 'bin' and Es[1] == 'Add':
+                for x, y in ((Es[2], Es[3]), (Es[3], Es[2])):
+                    if strip_casts(x) == Ss:
+                        cs, inner = casts_on(y)
+                        xr = ty_range(cs[-1][0]) if cs else None
+                        if xr is not None:
+                            v = (0, max(0, xr[1] - 1))
+        if tr is not None and tr[0] <= v[0] and v[1] <= tr[1]:
+            return v
+        return tr
 
     def refine_term(self, op, rng, bb):
         return rng
